@@ -10,6 +10,7 @@ def run(chk):
     exes = lib.build_impl(); mdl = lib.build_model()
     nstates, suite, rnd, corpus, narrow, wide = c01.build_inputs(chk, mdl)
     acc = [f for f, o in zip(narrow, lib.run_lines(mdl, ["parse %s 3" % f for f in narrow])) if o.startswith("parse 0")]
+    acc = sorted(set(acc + c01.pair_triple_accepted(mdl)))
     wacc = [f for f, o in zip(wide, lib.run_lines(mdl, ["parse %s 3" % f for f in wide])) if o.startswith("parse 0")]
     canon = dict(zip(acc + wacc, lib.run_lines(mdl, ["spec_canon " + f for f in acc + wacc])))
     nontrivial = set(); corr = []; ip6n = 0
